@@ -11,9 +11,11 @@
 //! remove/update can be taken again.
 #[path = "../../c02/src/engine.rs"]
 mod engine;
+mod race;
 use engine::*;
 use vh_common::serde_json::json;
 use vh_common::*;
+use std::collections::BTreeMap;
 
 fn gen_contended(r: &mut Rng) -> Vec<String> {
     let g = GenCfg { universe: *r.pick(&[1, 2, 2, 3]), n_ops: 12 + r.usize(16), malformed: 8 };
@@ -44,7 +46,7 @@ fn main() {
         cases.push(("replay".into(), read_replay(p)));
     } else {
         if let Some(dir) = &args.corpus { cases.extend(read_corpus(dir)); }
-        let n = args.budget(700, 20000);
+        let n = args.budget(2500, 40000);
         for i in 0..n {
             let mut r = Rng::for_case(args.seed, i);
             cases.push((format!("gen{i}"), gen_contended(&mut r)));
@@ -54,6 +56,33 @@ fn main() {
     for (name, ops) in &cases {
         if check_case(&rt, name, ops, &mut model, &mut rep, args.replay.is_none() && reported < 3) { reported += 1; }
         if rep.samples.len() < 3 { rep.sample(json!({"case": name, "ops": ops.iter().take(40).collect::<Vec<_>>()})); }
+    }
+    // concurrent writers on the real code: measured, not proved
+    if args.replay.is_none() {
+        let st = race::hunt(args.budget(150, 3000), args.seed);
+        rep.measured.insert("concurrent_rounds".into(), json!(st.rounds));
+        rep.measured.insert("concurrent_adds_rounds".into(), json!(st.adds_rounds));
+        rep.measured.insert("concurrent_adds_rounds_with_two_winners".into(), json!(st.adds_two_winners));
+        rep.measured.insert("concurrent_cross_rounds".into(), json!(st.cross_rounds));
+        rep.measured.insert("concurrent_cross_rounds_where_the_innocent_writer_was_rejected".into(), json!(st.cross_both_rejected));
+        rep.measured.insert("concurrent_early_release_rounds".into(), json!(st.early_rounds));
+        rep.measured.insert("concurrent_early_release_rounds_where_the_add_got_in".into(), json!(st.early_hits));
+        rep.measured.insert("concurrent_rounds_ending_poisoned".into(), json!(st.poisoned));
+        for (key, what, ctx, exp, obs) in &st.failures { rep.oracle_failure(key, what, ctx, exp, obs); }
+        // every outcome vector seen on real threads must be reachable under some schedule of the
+        // Lean interleaving model (`conc` of drv_c04)
+        let mut shown = BTreeMap::new();
+        for ((spec, oc), n) in &st.outcomes {
+            shown.insert(format!("{spec} => {oc}"), json!(n));
+            if let Some(m) = model.as_mut() {
+                let reach = m.ask(&format!("conc {spec}"));
+                rep.model_compared += 1;
+                if !reach.split(' ').any(|o| o == oc) {
+                    rep.disagreement("outcome of concurrent writers on real threads is not reachable under any schedule of the interleaving model", &[format!("conc {spec}")], &reach, oc);
+                }
+            }
+        }
+        rep.measured.insert("concurrent_outcomes_seen".into(), json!(shown));
     }
     rep.write(&args);
 }
